@@ -51,11 +51,21 @@ def tokenize(circuit_string):
 _cache = {}
 
 
+def _fresh_native_state():
+    """empty every module-level container of the native lookup module, so that a table is read the way a fresh
+    interpreter reads it (the library's own caches are C13's subject; see history_check below)"""
+    cl = loader.native("circuit_lookup")
+    for k, v in list(cl.__dict__.items()):
+        if isinstance(v, (dict, list, set)) and not k.startswith("__"):
+            v.clear()
+
+
 def entries(n, conn):
-    """table entries through the real stabilizer_circuit_lookup / parse_circuit / Graph.decompress"""
+    """table entries through the real stabilizer_circuit_lookup / parse_circuit / Graph.decompress (fresh lookup state)"""
     key = (n, conn)
     if key in _cache:
         return _cache[key]
+    _fresh_native_state()
     cl = loader.native("circuit_lookup")
     gr = loader.native("graph")
     out = []
@@ -93,3 +103,39 @@ def adj_of_id(n, gid):
             if (gid >> bit) & 1:
                 adj[i][j] = adj[j][i] = 1
     return adj
+
+
+def history_check():
+    """Are lookups independent of which tables were read before?  Reads every advertised configuration WITHOUT
+    clearing the library's state, in forward and in reverse order, and compares selected entries with the
+    fresh-state reads.  -> list of dict(n, first, second, id, what)"""
+    from .coupling_spec import ADVERTISED
+    cl = loader.native("circuit_lookup")
+    out = []
+    fresh = {(n, c): entries(n, c) for (n, c) in ADVERTISED}
+    for order in (list(ADVERTISED), list(reversed(ADVERTISED))):
+        _fresh_native_state()
+        prev = {}
+        for (n, c) in order:
+            K = len(fresh[(n, c)])
+            for cid in sorted(set([0, 1, K // 2, K - 1])):
+                info = cl.stabilizer_circuit_lookup(n, c, cid)
+                f = fresh[(n, c)][cid]
+                if (info.graph_id, info.cost, info.depth, info.circuit_string) != (f["graph_id"], f["cost"], f["depth"], f["text"]):
+                    out.append(dict(n=n, first=prev.get(n), second=c, id=cid,
+                                    what="lookup(%d,%s,%d) after reading %s returns %r, a fresh interpreter returns %r" % (n, c, cid, prev.get(n), info.circuit_string[:40], f["text"][:40])))
+            prev[n] = c
+    _fresh_native_state()
+    return out
+
+
+def replay_history(case):
+    """native, fresh process: read `first`, then `second`; compare with the raw file line"""
+    from htstabilizer import circuit_lookup as cl
+    n, first, second, cid = case["n"], case["first"], case["second"], case["id"]
+    if first is not None:
+        cl.stabilizer_circuit_lookup(n, first, 0)
+    info = cl.stabilizer_circuit_lookup(n, second, cid)
+    raw = [l for l in raw_lines("stabilizer%d-%s.txt" % (n, second)) if l][cid]
+    got = "%d:%d:%d:%s" % (info.graph_id, info.cost, info.depth, info.circuit_string)
+    return got != raw, "after a lookup in %s-%s the entry %d of %s-%s is %r but the file says %r" % (n, first, cid, n, second, got[:50], raw[:50])
